@@ -416,8 +416,8 @@ def evaluate(ctx, binp, cases, tag):
     out = vlib.coq_eval_sharded(ctx, "cases_c18_" + tag, header, terms,
                                 {"M": "mismatches", "V": "violations", "NT": "count_nontrivial", "VF": "count_validate_fail",
                                  "KC": "kf_codes"}, shard=200)
-    for code in out["KC"]:
-        by_id[code // 10]["kf_class"] = code % 10
+    for i in range(0, len(out["KC"]) - 1, 2):
+        by_id[out["KC"][i]]["kf_class"] = out["KC"][i + 1]
     M = sorted(set(out["M"]) | set(harness))
     json.dump({"by_id": by_id, "M": M, "V": out["V"]}, open(ctx.wpath("dump_%s.json" % tag), "w"))
     return by_id, M, out["V"], {"nt": sum(out["NT"]), "vf": sum(out["VF"]), "evals": len(terms), "outside": len(outside)}, res
